@@ -449,6 +449,26 @@ def run_history(ctx, idx, rng, tmp):
                 nontrivial = True
                 for f in read_before:
                     read_before[f] = "changed"
+            elif r < 0.48 and rng.random() < 0.3:
+                # a machine-learning score given as temporary feature is set / replaced:
+                # ml_class is computed from all ml_score_??? features that are available
+                arr = rng.uniform(0, 1, n)
+                dclab.set_temporary_feature(ds, "ml_score_ccc", arr)
+                temp["ml_score_ccc"] = arr
+                hist.append(["temp", "ml_score_ccc"])
+                for f in read_before:
+                    read_before[f] = "changed"
+                twin = build(kind, data, {s_: dict(kv) for s_, kv in cfg.items()}, temp, tmp, idx)
+                for s_, k_ in deleted:
+                    if k_ in twin.config[s_]:
+                        del twin.config[s_][k_]
+                try:
+                    hist.append(["read", "ml_class", "root (after the score was set)"])
+                    judge_read(ctx, ds, twin, "ml_class", hist, eff_cfg(), data,
+                               data.get("area_um"))
+                    ctx.count("ml_score_temporary_feature_set")
+                finally:
+                    twin.close()
             elif r < 0.48:
                 arr = rng.normal(size=n)
                 via = None
